@@ -30,6 +30,7 @@ KNOWN-FINDING; everything else that fails is a VIOLATION with a shrunk replay.
 import concurrent.futures
 import ctypes
 import os
+import re
 import shutil
 import threading
 import time
@@ -1077,7 +1078,8 @@ def run(ctx, out):
     fam = {}
     reported = 0
     kf_seen = {}
-    for r in results:
+    todo = []       # (priority, index, result, kind)
+    for idx, r in enumerate(results):
         sc = r["sc"]
         fam[sc.family] = fam.get(sc.family, 0) + 1
         for k in agg:
@@ -1089,34 +1091,49 @@ def run(ctx, out):
         hard = [f for f in r["findings"] if not f["in_window"]]
         soft = [f for f in r["findings"] if f["in_window"]]
         if r["crashed"]:
-            if reported < 5:
-                out.violation("the real code aborted (sanitizer / crash) in scenario %s" % sc.name,
-                              replay_obj(ctx, r, "abort", r["stderr"]))
-                reported += 1
-            continue
-        if soft:
-            if "F24" in kf_open and r["diff"] is None:
-                kf_seen["F24"] = kf_seen.get("F24", 0) + len(soft)
-            else:
-                hard = hard + soft
-        if hard:
-            if reported < 5:
-                clause = hard[0]["clause"]
-                small = shrink(binp, sc, lambda rr: any(f["clause"] == clause and not (f["in_window"] and "F24" in kf_open and
-                                                                                         rr["diff"] is None) for f in rr["findings"]))
-                rr = evaluate(binp, [small], "final")[0]
-                ff = [f for f in rr["findings"] if f["clause"] == clause] or hard
-                out.violation("C20 %s: %s" % (clause, ff[0]["what"]), replay_obj(ctx, rr, clause, ff[0]["what"]))
-                reported += 1
+            todo.append((1, idx, r, "abort"))
+        elif hard:
+            todo.append((0, idx, r, "hard"))
+        elif soft and not ("F24" in kf_open and r["diff"] is None):
+            todo.append((2, idx, r, "soft"))
         elif r["diff"] is not None:
-            if reported < 5:
-                small = shrink(binp, sc, lambda rr: rr["diff"] is not None and not [
-                    f for f in rr["findings"] if not f["in_window"]])
-                rr = evaluate(binp, [small], "final")[0]
-                obj = replay_obj(ctx, rr, "correspondence", "model and implementation differ; the property's monitor holds on the implementation")
-                obj["no_longer_checks"] = "correspondence Cjet.Authfile <-> src/posix/auth_file.c (theorems of Cjet.Props.C20 speak about the model)"
-                out.violation("model and code differ in scenario %s" % sc.name, obj, no_input=True)
-                reported += 1
+            todo.append((3, idx, r, "diff"))
+        elif soft:
+            kf_seen["F24"] = kf_seen.get("F24", 0) + len(soft)
+    todo.sort(key=lambda t: (t[0], len(t[2]["sc"].ops), t[1]))
+    seen_what = set()
+    for prio, idx, r, kind in todo:
+        if reported >= 5:
+            break
+        sc = r["sc"]
+        if kind == "abort":
+            out.violation("the real code aborted (sanitizer / crash) in scenario %s" % sc.name,
+                          replay_obj(ctx, r, "abort", r["stderr"]))
+            reported += 1
+        elif kind in ("hard", "soft"):
+            fs_ = [f for f in r["findings"] if (not f["in_window"]) or kind == "soft"]
+            clause = fs_[0]["clause"]
+            key = (clause, re.sub(r"\d+", "N", fs_[0]["what"])[:80])
+            if key in seen_what and reported >= 2:
+                continue
+            seen_what.add(key)
+            want_soft = kind == "soft"
+            small = shrink(binp, sc, lambda rr: any(f["clause"] == clause and (want_soft or not f["in_window"])
+                                                    for f in rr["findings"]) and (not want_soft or rr["diff"] is not None
+                                                                                  or "F24" not in kf_open))
+            rr = evaluate(binp, [small], "final")[0]
+            ff = [f for f in rr["findings"] if f["clause"] == clause and (want_soft or not f["in_window"])] or fs_
+            out.violation("C20 %s: %s" % (clause, ff[0]["what"]), replay_obj(ctx, rr, clause, ff[0]["what"]))
+            reported += 1
+        else:
+            small = shrink(binp, sc, lambda rr: rr["diff"] is not None and not [f for f in rr["findings"] if not f["in_window"]])
+            rr = evaluate(binp, [small], "final")[0]
+            obj = replay_obj(ctx, rr, "correspondence",
+                             "model and implementation differ; the property's monitor holds on the implementation")
+            obj["no_longer_checks"] = ("correspondence Cjet.Authfile <-> src/posix/auth_file.c "
+                                       "(the theorems of Cjet.Props.C20 speak about the model)")
+            out.violation("model and code differ in scenario %s" % sc.name, obj, no_input=True)
+            reported += 1
 
     # known findings: the directed replay decides whether the line is printed
     for s in replays:
